@@ -78,7 +78,7 @@ func TestC05_AfterComponent(t *testing.T) {
 // TestC05_ResponseBody: the same bytes reach an http.ResponseWriter.
 func TestC05_ResponseBody(t *testing.T) {
 	c := harness.New(t, "C05", "response-body",
-		"every sequence of <= 3 pieces from {%, %d, %s, %v, %%, 100%;, %!, (MISSING), a letter, space, LF, CRLF, }}, {, backslash, é, @, -, an escaped {{, an escaped @if} written as the only page of a template directory and rendered with String and with Response (httptest recorder): both give the text the reference scanner expects (plain text unchanged, escapes without their backslash), the returned error is nil. Exhaustive. Non-trivial: contains a percent sign or an escape. Distinct by construction.")
+		"every sequence of <= 3 pieces from {%, %d, %s, %v, %%, 100%;, %!, (MISSING), a letter, space, LF, CRLF, }}, {, backslash, é, @, -, an escaped {{, an escaped @if} written as the only page of a template directory and rendered with String and with Response (httptest recorder): both give the text the reference scanner expects (plain text unchanged, escapes without their backslash), the returned error is nil; the same file configured as custom error page is written byte for byte by a failing Response. Exhaustive. Non-trivial: contains a percent sign or an escape. Distinct by construction.")
 	defer c.Finish()
 	pieces := []string{"%", "%d", "%s", "%v", "%%", "100%;", "%!", "(MISSING)", "a", " ", "\n", "\r\n", "}}", "{", "\\", "é", "@", "-", "\\{{", "\\@if"}
 	idx := 0
@@ -136,6 +136,22 @@ func c05Response(c *harness.Check, cs treeCase) string {
 		}
 		if body := w.Body.String(); body != cs.Want.S {
 			failure = fmt.Sprintf("Response wrote %q, the text is %q", body, cs.Want.S)
+			return
+		}
+		// the same text as the custom error page of a failing page: it is a template's text like any other
+		textwire.VerifReset()
+		tpl, err = textwire.NewTemplate(&config.Config{TemplateDir: cs.Dir, TemplateExt: cs.Ext, ErrorPagePath: cs.Page})
+		if err != nil {
+			failure = "unexpected load error with the page as custom error page: " + err.Error()
+			return
+		}
+		w = httptest.NewRecorder()
+		if rerr := tpl.Response(w, "zz/no-such-page", nil); rerr == nil {
+			failure = "Response of an unknown page returned nil"
+			return
+		}
+		if body := w.Body.String(); body != cs.Want.S {
+			failure = fmt.Sprintf("as the custom error page of a failing render Response wrote %q, the text is %q", body, cs.Want.S)
 		}
 	})
 	if pi != nil {
